@@ -218,14 +218,8 @@ func (w *Workspace) buildIncludeGraph(files []string) {
 			continue
 		}
 
-		dir := filepath.Dir(file)
-		for _, inc := range journal.Includes {
-			incPath := inc.Path
-			if !filepath.IsAbs(incPath) {
-				incPath = filepath.Join(dir, incPath)
-			}
-			incPath = filepath.Clean(incPath)
-
+		// the same resolution as the index uses: glob patterns expanded, '~' and '..' resolved
+		for _, incPath := range resolveIncludePaths(file, journal.Includes) {
 			w.includeGraph[file] = append(w.includeGraph[file], incPath)
 			w.reverseGraph[incPath] = append(w.reverseGraph[incPath], file)
 		}
